@@ -105,6 +105,16 @@ def _case(draw, knob):
     n = draw(st.integers(1, 5))
     for i in range(n):
         body += draw(_stmt(params, 0, shadow=(knob == "shadowing" and i == 0) or (knob == "shadowing" and draw(st.booleans()))))
+    if route == "argparse" and draw(st.integers(0, 2)) == 0:
+        # statements that look like the interface but are not: options registered on a group / another parser
+        grp = draw(st.sampled_from(("group", "sub", "parent_parser")))
+        more = ["%s = argument_parser.add_argument_group('advanced')" % grp,
+                "%s.add_argument('--%s', type=int, help='not an option of the interface')" % (grp, draw(st.sampled_from(("gamma", "verbose") + tuple(params))))]
+        if draw(st.booleans()):
+            more.append("argument_parser.set_defaults(mode='fast')")
+        starts = [i for i, l in enumerate(body) if not l.startswith((" ", "except", "else", "finally"))] + [len(body)]
+        at = draw(st.sampled_from(starts))  # between two top-level statements, never inside a compound one
+        body = body[:at] + more + body[at:]
     final = None
     if route in ("function", "method", "call") and draw(st.booleans()):
         final = draw(st.sampled_from(["return %s" % x for x in params + ["tmp", "foo(1)", "0", "False", "0.0"]] + ["return"]))
@@ -306,14 +316,28 @@ def run_case(case):
             ir = parse.argparse_ast(ast.parse(src).body[0])
             text = to_code(emit.argparse_function(ir, function_name=kinds.ARGPARSE_NAME))
             got_body = _strip_doc(ast.parse(text).body[0].body)
-            from doctrans.ast_utils import is_argparse_add_argument, is_argparse_description
-
-            got_extras = [s for s in got_body if not is_argparse_add_argument(s) and not is_argparse_description(s)]
+            got_extras = [s for s in got_body if not _is_option(s) and not _is_description(s)]
             want_extras = extras + [ret]
             _cmp_bodies(want_extras, got_extras, discs, "argparse")
+            n_want, n_got = sum(map(_is_option, stmts)), sum(map(_is_option, got_body))
+            if n_want != n_got:
+                discs.append(Disc("argparse:options:%s" % ("extra" if n_got > n_want else "missing"), "options",
+                                  "%d option registrations on argument_parser before, %d after" % (n_want, n_got)))
     except Exception as e:
         discs.append(raise_disc(e, route))
     return CaseResult(discs, tags, nontrivial, "%s: %s" % (route, "ok" if not discs else discs[0].aspect))
+
+
+def _is_option(s):
+    """`argument_parser.add_argument(...)` as an expression statement - the interface part of an argparse function (own
+    predicate: the one doctrans uses decides what it carries, so it cannot also judge it)."""
+    return (isinstance(s, ast.Expr) and isinstance(s.value, ast.Call) and isinstance(s.value.func, ast.Attribute)
+            and s.value.func.attr == "add_argument" and isinstance(s.value.func.value, ast.Name) and s.value.func.value.id == "argument_parser")
+
+
+def _is_description(s):
+    return (isinstance(s, ast.Assign) and len(s.targets) == 1 and isinstance(s.targets[0], ast.Attribute)
+            and s.targets[0].attr == "description" and isinstance(s.targets[0].value, ast.Name) and s.targets[0].value.id == "argument_parser")
 
 
 def _blocks(lines):
